@@ -20,9 +20,11 @@ META = {
     "reach": ["hugr.hugr.render:DotRenderer.render", "hugr.hugr.render:DotRenderer._viz_node",
               "hugr.hugr.render:DotRenderer._viz_link"],
     "assumptions": [
-        "the DOT text is parsed by a harness-side parser for the subset the graphviz package emits and, when a `dot` "
-        "binary is on PATH (it is in this image), also read by Graphviz itself (`dot -Tcanon`; errors count, warnings "
-        "do not); store_dot is exercised on a sample with format svg",
+        "the DOT text is parsed by a harness-side parser for the subset the graphviz package emits and, when Graphviz's "
+        "`nop` and `dot` are on PATH (they are in this image), also read by Graphviz itself: `nop` (no layout) for the "
+        "graph syntax and `dot -Tcanon` on the node statements alone for the HTML-like labels (2.43's layout engine "
+        "fails on some well-formed graphs, so the whole source is not laid out); store_dot is exercised on a sample "
+        "with format svg, and a failure of Graphviz's layout on a source that passes both questions is undecided",
         "the spelling of order-port endpoints (out.-1 / in.-1) is taken from links() as is",
         "port cells are those of Hugr.num_in_ports / num_out_ports",
     ],
@@ -113,29 +115,59 @@ def display_name(op, qualify):
     return op.name()
 
 
-_DOT: list = []
+_DOT: dict = {}
+
+SYNTACTIC = ("syntax error", "not well-formed", "in label of", "Unknown HTML element", "Illegal", "Bad attribute",
+             "Unclosed", "Expected", "invalid")
+
+
+def gv_tool(name):
+    if name not in _DOT:
+        import shutil
+
+        _DOT[name] = shutil.which(name)
+    return _DOT[name]
 
 
 def dot_binary():
-    if not _DOT:
-        import shutil
-
-        _DOT.append(shutil.which("dot"))
-    return _DOT[0]
+    return gv_tool("dot") and gv_tool("nop")
 
 
-def graphviz_accepts(src):
-    """(accepted?, first error line) -- Graphviz's own parser reads the source (`dot -Tcanon`, no layout); warnings
-    (e.g. an edge naming the order port, which is no cell) are not errors.  None when it cannot be decided."""
+def _run(cmd, src):
     import subprocess
 
     try:
-        r = subprocess.run([dot_binary(), "-Tcanon"], input=src.encode(), capture_output=True, timeout=120)
+        r = subprocess.run(cmd, input=src.encode(), capture_output=True, timeout=120)
     except (OSError, subprocess.TimeoutExpired):
+        return None, []
+    return r.returncode, [ln for ln in r.stderr.decode(errors="replace").splitlines() if ln.startswith("Error")]
+
+
+def graphviz_accepts(src):
+    """(accepted?, first error line); None when it cannot be decided.  Two questions are put to Graphviz itself:
+    (a) is the source a well-formed graph?  -- `nop`, the parser / pretty-printer, no layout;
+    (b) are the HTML-like node labels well-formed?  -- `dot -Tcanon` on the node statements alone (isolated nodes).
+    `dot -Tcanon` on the whole source is NOT used: Graphviz 2.43 runs its layout engine for it, and that engine fails
+    on some perfectly well-formed graphs ("trouble in init_rank", "in routesplines, illegal values of prev ..."),
+    which says nothing about the rendering.  Warnings are not errors; an error of (b) that is not about syntax is
+    counted as undecided."""
+    rc, err = _run([gv_tool("nop")], src)
+    if rc is None:
+        return None, "nop did not run"
+    if rc != 0 or err:
+        return False, (err or [f"nop: exit status {rc}"])[0][:200]
+    try:
+        nodes, _, _ = parse_dot(src)
+    except ParseError:
+        return None, "node statements not found"
+    reduced = "digraph {\n" + "".join(f"\t{nid} [label=<\n{label}\n> shape=plain]\n" for nid, _, label in nodes) + "}\n"
+    rc, err = _run([gv_tool("dot"), "-Tcanon"], reduced)
+    if rc is None:
         return None, "dot did not run"
-    err = [ln for ln in r.stderr.decode(errors="replace").splitlines() if ln.startswith("Error")]
-    if r.returncode != 0 or err:
-        return False, (err or [f"exit status {r.returncode}"])[0][:200]
+    if rc != 0 or err:
+        if any(k in e for e in err for k in SYNTACTIC):
+            return False, [e for e in err if any(k in e for k in SYNTACTIC)][0][:200]
+        return None, (err or [f"dot: exit status {rc}"])[0][:200]
     return True, ""
 
 
@@ -333,6 +365,14 @@ def check_store(ctx, h, case, stratum):
                 else:
                     DotRenderer().store(h, fn, "svg")
             except Exception as e:  # noqa: BLE001
+                import subprocess
+
+                if isinstance(e, subprocess.CalledProcessError) and graphviz_accepts(h.render_dot().source)[0] and \
+                        graphviz_accepts(h.render_dot(RenderConfig(Palette.named("zx"), True)).source)[0]:
+                    # Graphviz read the source and then failed in its own layout engine (2.43 does on some graphs):
+                    # nothing the rendering could have done differently
+                    ctx.count("store-undecided:graphviz-layout-failure")
+                    continue
                 ctx.disc(None, f"store-raises[{how}]", type(e).__name__, "a file is written",
                          f"{type(e).__name__}: {str(e)[-300:]}", stratum=stratum, case=case)
                 continue
@@ -381,8 +421,13 @@ def build_tiny(k):
         h = Hugr()
         h.add_node(ops.FuncDecl("f<&>", tys.PolyFuncType([], tys.FunctionType.empty())), h.root)
         return h
-    h = Hugr(ops.CFG([], []))
-    return h
+    if k == 4:
+        return Hugr(ops.CFG([], []))
+    # a root whose 'name' metadata looks like an HTML string (graph names are identifiers, not labels)
+    d = Dfg(tys.Bool)
+    d.set_outputs(*d.inputs())
+    d.hugr[d.hugr.root].metadata["name"] = ["<b>&amp; \"q\" </TD>", "<name>", "<>"][k % 3]
+    return d.hugr
 
 
 def selftest(ctx):
@@ -425,7 +470,7 @@ def run(ctx):
             ctx.count("monitor:repo-test-documents")
             ctx.guard("render", case, go)
             ctx.case("render", case, len(c["doc"]["nodes"]) >= 6)
-    for k in ctx.mine(5):
+    for k in ctx.mine(8):
         case = {"tiny": k, "configs": [list(x) for x in allcfg] + [[None, False]], "store": True, "rerender": True}
 
         def go_tiny(case=case):
